@@ -810,6 +810,10 @@ pub fn run(ctx: &Ctx) -> i32 {
                         "empty image: numLongs is the configured size".to_string()
                     } else if fam == "cm" && c.bytes.len() >= 16 && c.bytes[3] & 1 != 0 {
                         "empty image: numBuckets x numHashes is the configured size".to_string()
+                    } else if fam == "fi" && c.bytes.len() >= 8 && c.bytes[4] >= 16 && c.bytes[4] <= 30 && *sz as u128 >= (1u128 << c.bytes[4]) {
+                        // the map the image announces (2^lgCurMapSize slots) is allocated up front,
+                        // whatever the number of active items that follow
+                        "lgCurMapSize is the configured map size".to_string()
                     } else {
                         c.locus.clone()
                     };
